@@ -6,6 +6,7 @@ import (
 	"go/token"
 	"go/types"
 	"math/big"
+	"sort"
 	"strings"
 
 	"golang.org/x/tools/go/ssa"
@@ -103,7 +104,7 @@ func init() {
 	})
 	register(&propDef{
 		id:      "C30",
-		explain: "Decides structural/arithmetical necessary conditions of the integer codecs on the analysed GOARCH (amd64; thorough adds 386): (R1) the constants the overflow guard relies on satisfy, in exact big-integer arithmetic, maxIntDiv10 = floor(MaxInt/10), 10^maxSafeIntDigits-1 <= MaxInt, 10*maxIntDiv10+9 < 2^wordsize (so one sign test is decisive), 16^maxHexIntChars-1 <= MaxInt and the hex buffer holds every digit of MaxInt; (R2) in parseUintBuf every path that carries the new accumulator into the next iteration has passed either the 'few digits' test or both overflow tests with the overflow outcome excluded; (R3) in readHexInt the shift-accumulate is only reached with the digit count below maxHexIntChars; (R4) ParseUint returns an error when parseUintBuf consumed less than the whole input; (R5) AppendUint and writeHexInt reject negative input before formatting; (R6) in the integer formatters a scratch buffer taken from a pool is given back only after its last use: once Put was called nothing that derives from the pooled value (the asserted buffer, a slice of it) is read or written, since the next Get may hand it to a concurrent or re-entrant formatter that overwrites the digits. NOT decided: the accepted language of ParseUint as a whole, AppendUint/ParseUint being inverse, values of chunk sizes.",
+		explain: "Decides structural/arithmetical necessary conditions of the integer codecs on the analysed GOARCH (amd64; thorough adds 386): (R1) the constants the overflow guard relies on satisfy, in exact big-integer arithmetic, maxIntDiv10 = floor(MaxInt/10), 10^maxSafeIntDigits-1 <= MaxInt, 10*maxIntDiv10+9 < 2^wordsize (so one sign test is decisive), 16^maxHexIntChars-1 <= MaxInt and the hex buffer holds every digit of MaxInt; (R2) in parseUintBuf every path that carries the new accumulator into the next iteration has passed either the 'few digits' test or both overflow tests with the overflow outcome excluded; (R3) in readHexInt the shift-accumulate is only reached with the digit count below maxHexIntChars; (R4) ParseUint returns an error when parseUintBuf consumed less than the whole input; (R5) AppendUint and writeHexInt reject negative input before formatting; (R6) in the integer formatters a scratch buffer taken from a pool is given back only after its last use: once Put was called nothing that derives from the pooled value (the asserted buffer, a slice of it) is read or written, since the next Get may hand it to a concurrent or re-entrant formatter that overwrites the digits. (R7) in parseUintBuf the value returned without error is, followed back through its merges, built only from constants and accumulate steps 10*acc + (byte-'0') that are reached only when the byte failed the test 'byte-'0' > 9' - no byte contributes to the value without having passed the digit test. NOT decided: the accepted language of ParseUint as a whole, AppendUint/ParseUint being inverse, values of chunk sizes.",
 		run:     runC30,
 	})
 }
@@ -530,6 +531,7 @@ func evalCmp(op token.Token, entry, k int64, entryLeft bool) bool {
 
 func runC30(p *Prog, r *Report) {
 	scratchNotRecycledEarly(p, r)
+	digitsOnlyAccumulate(p, r)
 	pkg := p.byPath[rootPkg].Types
 	wordBits := 64
 	if p.Arch == "386" || p.Arch == "arm" {
@@ -1122,4 +1124,106 @@ func scratchNotRecycledEarly(p *Prog, r *Report) {
 		}
 	}
 	r.Floor("R6", "Pool.Put calls in the integer codecs", n, 1)
+}
+
+// digitsOnlyAccumulate (C30.R7): ParseUint must accept the ASCII decimal
+// strings only, so every byte that contributes to the value has passed the
+// digit-class test. In parseUintBuf the value returned with a nil error is
+// followed back through its merges: every source is a constant, or one
+// accumulate step 10*acc + k in which k is (input byte - '0') and the step is
+// only reached when the test 'k > 9' failed. Any other source (a value
+// converted in bulk, a callee's result) carries bytes for which that test
+// cannot be established.
+func digitsOnlyAccumulate(p *Prog, r *Report) {
+	fn := p.Func("parseUintBuf")
+	if fn == nil {
+		r.Undecided("R7", "parseUintBuf", "anchor not found")
+		return
+	}
+	var bad []string
+	steps := 0
+	seen := map[ssa.Value]bool{}
+	isDigitOf := func(k ssa.Value) (ssa.Value, bool) { // k == byte - '0'
+		if cv, ok := k.(*ssa.Convert); ok {
+			k = cv.X
+		}
+		bo, ok := k.(*ssa.BinOp)
+		if !ok || bo.Op != token.SUB {
+			return nil, false
+		}
+		if c, okc := constInt(bo.Y); !okc || c != '0' {
+			return nil, false
+		}
+		if bt, isB := bo.X.Type().Underlying().(*types.Basic); !isB || bt.Kind() != types.Uint8 {
+			return nil, false
+		}
+		return bo, true
+	}
+	var walk func(v ssa.Value)
+	walk = func(v ssa.Value) {
+		if seen[v] {
+			return
+		}
+		seen[v] = true
+		switch w := v.(type) {
+		case *ssa.Const:
+		case *ssa.Phi:
+			for _, e := range w.Edges {
+				walk(e)
+			}
+		case *ssa.BinOp:
+			if w.Op == token.ADD {
+				for _, pair := range [][2]ssa.Value{{w.X, w.Y}, {w.Y, w.X}} {
+					mul, okm := pair[0].(*ssa.BinOp)
+					if !okm || mul.Op != token.MUL {
+						continue
+					}
+					var acc ssa.Value
+					if c, okc := constInt(mul.X); okc && c == 10 {
+						acc = mul.Y
+					} else if c, okc := constInt(mul.Y); okc && c == 10 {
+						acc = mul.X
+					}
+					k, okk := isDigitOf(pair[1])
+					if acc == nil || !okk {
+						continue
+					}
+					// the step is reached only when 'k > 9' failed (or 'k <= 9' held)
+					tested := false
+					for _, g := range guardsOfDepth(w.Block(), 0) {
+						if cb, okc := g.Cond.(*ssa.BinOp); okc && cb.X == k {
+							if c, okc := constInt(cb.Y); okc && c == 9 && ((cb.Op == token.GTR && !g.Pol) || (cb.Op == token.LEQ && g.Pol)) {
+								tested = true
+							}
+						}
+					}
+					steps++
+					if !tested {
+						bad = append(bad, "the accumulate step at "+p.Pos(w.Pos())+" is reachable without the digit test of its byte")
+					}
+					walk(acc)
+					return
+				}
+			}
+			bad = append(bad, fmt.Sprintf("the value takes %s computed at %s, which is not a digit-by-digit accumulate step", w.Op, p.Pos(w.Pos())))
+		default:
+			bad = append(bad, fmt.Sprintf("the value comes from %s at %s: the bytes behind it have not individually passed the digit test", strings.TrimPrefix(fmt.Sprintf("%T", v), "*ssa."), p.Pos(firstPos(fn, v.Pos()))))
+		}
+	}
+	rets := 0
+	for _, b := range fn.Blocks {
+		rt, ok := b.Instrs[len(b.Instrs)-1].(*ssa.Return)
+		if !ok {
+			continue
+		}
+		rr := returnResults(rt)
+		if len(rr) != 3 || !isNilConst(rr[2]) {
+			continue
+		}
+		rets++
+		walk(rr[0])
+	}
+	sort.Strings(bad)
+	r.Check("R7", "parseUintBuf: every byte that contributes to a value returned without error has passed the digit test", len(bad) == 0 && steps > 0 && rets > 0, p.Pos(fn.Pos()),
+		strings.Join(bad, "; ")+" - ParseUint would return a number for input that is not an ASCII decimal string (Content-Length, Range and cookie max-age go through it)")
 }
